@@ -35,6 +35,13 @@ def run (t : Tier) : Emit Unit := do
         let d : PSIData := { pointerField := 0, sections := [s] }
         emit "C13" { op := "writePSI", args := [("psi", d.toJson)], model := showWrite (writePSIData d),
                      spec := some (showWrite (.ok (Spec.unitEncode 0 [bs] 0))), tag := "write-" ++ kindName k ++ (if big then "-large" else "") }
+        -- the flags of the struct's section header contradicting the table id (section_syntax_indicator / private bit
+        -- cleared or set the other way round), the redundant SectionLength stale: correspondence with the model — what is
+        -- announced must still be what is written
+        if i % 5 = 0 then
+          let s' := { s with header := s.header.map fun h => { h with sectionSyntaxIndicator := !h.sectionSyntaxIndicator, privateBit := !h.privateBit, sectionLength := (h.sectionLength + 7) % 4096 } }
+          let d' : PSIData := { pointerField := 0, sections := [s'] }
+          emit "C13" { op := "writePSI", args := [("psi", d'.toJson)], model := showWrite (writePSIData d'), spec := none, tag := "write-header-flags-contradict-table-id" }
   -- (1b) PMT with descriptors at the top of the 8-bit length range, in the programme loop and in an ES loop
   for n in [250, 251, 252, 253, 254, 255] do
     for where_ in [0, 1] do
